@@ -131,6 +131,9 @@ Inductive construct :=
      (* ... both given: one entry per attribute of sorted(diff): Some b = "always" (identity.always = b), None = an option *)
 | CMysqlDropCheck                     (* schema.DropConstraint(CheckConstraint) through mysql._mysql_drop_constraint *)
 | CMysqlDropGeneric                   (* schema.DropConstraint(<a bare Constraint>) : NotImplementedError *)
+| CPgExclude (has_where:bool)
+     (* AddConstraint(ExcludeConstraint) built by postgresql.CreateExcludeConstraintOp.to_constraint, one (column, operator)
+        element: NColumn is the constraint name, NNewColumn the element's column *)
 | CForeign (k:fkind)                  (* a construct compiled entirely by SQLAlchemy: its text is one opaque token *)
 | CColumnComment (has_comment:bool)
 | CPgColumnType (has_using:bool)
@@ -188,6 +191,12 @@ Fixpoint pg_identity_steps (i:nat) (l:list (option bool)) : list piece :=
   end.
 Definition pg_identity_alter (l:list (option bool)) :=
   alter_table ++ [K " "; K "ALTER COLUMN "; Col NColumn; K " "] ++ pg_identity_steps 0 l.
+
+(* ALTER TABLE <format_table> ADD CONSTRAINT <name> EXCLUDE USING <using> (<col> WITH <op>) [WHERE (<where>)] *)
+Definition pg_exclude (has_where:bool) :=
+  [K "ALTER TABLE "; TblSA NTable; K " ADD CONSTRAINT "; Col NColumn; K " EXCLUDE USING "; Opaque 0; K " (";
+   Col NNewColumn; K " WITH "; Opaque 1; K ")"]
+  ++ (if has_where then [K " WHERE ("; Opaque 2; K ")"] else []).
 
 (* oracle.py *)
 Definition ora_add_column := alter_table ++ [K " "; K "ADD "; Col NColumn; K " "; Opaque 0].
@@ -268,6 +277,8 @@ Definition visitor0 (d:dialect) (c:construct) : list piece :=
   | CMysqlDropCheck, _ => unsupported          (* elsewhere DropConstraint is compiled by SQLAlchemy itself *)
   | CMysqlDropGeneric, Mysql => mysql_individual
   | CMysqlDropGeneric, _ => unsupported
+  | CPgExclude b, Postgresql => pg_exclude b
+  | CPgExclude _, _ => unsupported
   | CForeign _, _ => [Opaque 0]
   | CRenameTable, Mysql => base_rename_table
   | CRenameTable, Mssql => mssql_rename_table
@@ -330,7 +341,7 @@ Definition all_constructs : list construct :=
    CMssqlDropConstraint; CMssqlDropFK; CMysqlDropCheck; CMysqlDropGeneric;
    CForeign FSetTableComment; CForeign FDropTableComment; CForeign FSetColumnComment]
   ++ map CAddColumn bools ++ map CColumnNullable bools ++ map CColumnDefault bools ++ map CColumnComment bools
-  ++ map CPgColumnType bools ++ map CMysqlAlterDefault bools
+  ++ map CPgColumnType bools ++ map CMysqlAlterDefault bools ++ map CPgExclude bools
   ++ flat_map (fun n => flat_map (fun a => flat_map (fun d => flat_map (fun c =>
        [CMysqlModify n a d c; CMysqlChange n a d c]) bools) bools) bools) bools.
 Definition all_dialects : list dialect := [Sqlite; Postgresql; Mysql; Mssql; Oracle; Mariadb].
